@@ -11,6 +11,8 @@ Definition witness_flat (w : option (nat * nat * nat * nat)) : list nat :=
   match w with Some (a, b, c, d) => [1; a; b; c; d] | None => [0; 0; 0; 0; 0] end.
 Definition cache_witnesses : list nat := flat_map (fun e => witness_flat (centry_witness e)) cache_access.
 
+Definition cache_removal_witnesses : list nat := flat_map (fun e => witness_flat (centry_removal_witness e)) cache_access.
+
 (* the line tag of the placeholder store of the witness's writer *)
 Definition placeholder_tag (e : centry) : nat :=
   match centry_witness e with
@@ -22,10 +24,12 @@ Definition cache_placeholder_tags : list nat := map placeholder_tag cache_access
 
 (* ---- correspondence: one case = the accesses ONE real call of a table function made to the cache ---- *)
 Inductive cev :=
-| EvHit                     (* membership test / read that found the key *)
+| EvHit                     (* one-step lookup (get) that found the key *)
 | EvMiss
 | EvStore (final : bool)    (* final: the stored object IS the object the call returned, and was not changed in between *)
-| EvClear.
+| EvClear
+| EvCheck (found : bool)    (* membership test *)
+| EvRead (found : bool).    (* subscript read *)
 
 Record cachecase := { cc_entry : nat; cc_prog : nat; cc_evs : list cev }.
 
@@ -36,6 +40,8 @@ Definition cev_matches (a : cact) (e : cev) : bool :=
   | CStore CFinal, EvStore true => true
   | CStore (COther _), EvStore _ => true      (* the generator may be pessimistic, never optimistic *)
   | CClear, EvClear => true
+  | CCheck, EvCheck _ => true
+  | CRead, EvRead _ => true
   | _, _ => false
   end.
 
@@ -50,7 +56,7 @@ Fixpoint ctrace_lax (p : cprog) (evs : list cev) {struct p} : bool :=
       | a :: p' =>
           if cev_matches a e
           then match e with
-               | EvHit => match r with [] => true | _ => false end
+               | EvHit | EvRead _ => match r with [] => true | _ => false end
                | _ => ctrace_lax p' r
                end
           else ctrace_lax p' evs
